@@ -59,6 +59,12 @@ pub struct Nested {
     pub b: String,
 }
 
+/// The decoded value written back with the chain's encoder (a value that cannot be written is an observation, not a failure
+/// of the decoder that accepted the document).
+pub fn reencode<T: serde::Serialize>(m: &T) -> Vec<u8> {
+    sylvia::cw_std::to_json_vec(m).unwrap_or_else(|e| format!("<value cannot be encoded: {e}>").into_bytes())
+}
+
 /// The concrete type generic programs are instantiated with (family "generic"): an argument of type `GenT`.
 #[cosmwasm_schema::cw_serde]
 pub struct GenVal {
